@@ -76,6 +76,7 @@ def run(ck, prog, ctx):
     ck.rule("ROLE", "argument roles of the induced links (DESIGN 3.4)")
     pv = Prov(prog)
     pvn = Prov(prog, inline=False)
+    pv_crisp = Prov(prog, mutflow=False)
 
     # ------------------------------------------------------------------ SIBLING
     sites = membership_sites(prog, pv, Prov(prog, bind_closures=False))
@@ -120,6 +121,27 @@ def run(ck, prog, ctx):
         if not present:
             from props.shared import reaches_membership_test
             nb2_ = prog.body("term::hpoterm::" + need)
+            # the predicate answers by testing one ROOT SET of the ontology against the other (`modifier.contains(category)`): that is a statement
+            # about the two root lists, not about the ancestors of this term - and it inherits whatever the sibling predicate leaves out
+            mixed = None
+            if nb2_ is not None:
+                role_of_ = {"modifier": "modifier", "categories": "categories"}
+                for role_ in ("modifier", "categories"):
+                    ab_ = prog.body("ontology::Ontology::" + role_)
+                    if ab_ is not None:
+                        for a_ in pv.of_return(ab_):
+                            if a_[0] == "field" and a_[1].endswith("::Ontology"):
+                                role_of_[a_[2]] = role_
+                for fb_ in prog.family(nb2_):
+                    for _, t_ in fb_.calls():
+                        if (t_.callee.res == "term::group::HpoGroup::contains" or (t_.callee.trait == "std::ops::BitAnd" and "HpoGroup" in (t_.callee.def_args or ""))) and len(t_.args) == 2:
+                            ats_ = [set(pv.of_operand(fb_, a_)) | {x_ for x_ in pvn.of_operand(fb_, a_) if x_[0] == "call"} for a_ in t_.args]
+                            rr = [{role_of_[f] for f in field_names(at_, "::Ontology") if f in role_of_} | {r_ for r_ in ("modifier", "categories") if any(x_[0] == "call" and (x_[1] == "ontology::Ontology::" + r_ or (r_ == "categories" and x_[1].endswith("::HpoTerm::<'a>::categories") and need.endswith("is_modifier"))) for x_ in at_)} for at_ in ats_]
+                            if rr[0] and rr[1] and rr[0] != rr[1] and len(rr[0]) == 1:
+                                mixed = (fb_, t_, rr)
+            if mixed is not None:
+                ck.ob("SIBLING", "site-present/" + need, False, "%s tests the ontology's %s roots against values derived from its %s roots, not against the ancestors (and the id) of the term" % (need, "/".join(sorted(mixed[2][0])), "/".join(sorted(mixed[2][1]))), where=mixed[0].where(mixed[1].line))
+                continue
             via_ = reaches_membership_test(prog, nb2_) if nb2_ is not None else None
             if via_ is not None:
                 ck.undecided("SIBLING", "site-present/" + need, "%s reaches a group membership test only in %s (an idiom the membership rule does not read)" % (need, via_.short))
@@ -144,7 +166,15 @@ def run(ck, prog, ctx):
                 for k, what in atom_kinds(pv.of_operand(fb, a)):
                     if k != K:
                         foreign.append((ai, k, what))
-            ck.ob("KIND", "K2/sub_ontology/%s/args" % m, not foreign, "%s in sub_ontology %s" % (m, "receives only %s data" % K if not foreign else "receives %s data in argument %d: %s" % (foreign[0][1], foreign[0][0], foreign[0][2])), where=fb.where(t.line))
+            if foreign:
+                # the provenance with write-through-&mut flows is an over-approximation (a memo table filled deep inside a callee smears every
+                # term field into it): a foreign kind counts only if the flow-exact provenance (no &mut side flows) shows it as well
+                crisp = [(ai, k, what) for ai, a in enumerate(t.args[1:], 1) for k, what in atom_kinds(pv_crisp.of_operand(fb, a)) if k != K]
+                if not crisp:
+                    ck.undecided("KIND", "K2/sub_ontology/%s/args" % m, "%s: %s data reaches argument %d only through values written behind &mut references (%s): an over-approximated flow, not classified" % (m, foreign[0][1], foreign[0][0], foreign[0][2]), where=fb.where(t.line))
+                    foreign = None
+            if foreign is not None:
+              ck.ob("KIND", "K2/sub_ontology/%s/args" % m, not foreign, "%s in sub_ontology %s" % (m, "receives only %s data" % K if not foreign else "receives %s data in argument %d: %s" % (foreign[0][1], foreign[0][0], foreign[0][2])), where=fb.where(t.line))
             # guard: dominated by the non-empty edge of (record.hpo_terms() & filtered ids).is_empty()
             guards = []
             for gbi in sorted(fb.reach):
@@ -174,7 +204,33 @@ def run(ck, prog, ctx):
                         ak |= {k for k, _ in atom_kinds(pv.of_operand(fb, a_))}
                     if ak == {K}:
                         helper_guard = gt
-            if not guards and helper_guard is not None:
+            # second idiom of the same guard:  record.hpo_terms()...iter().any(|t| phenotype_ids.contains(t))  (an existence test instead of
+            # the emptiness of the materialised intersection)
+            any_guard = None
+            if not guards:
+                for gbi, gt in fb.calls():
+                    if gt.callee.trait == "std::iter::Iterator" and gt.callee.method == "any" and len(gt.args) > 1:
+                        cid = pv.closure_of_operand(fb, gt.args[1])
+                        cbd = prog.bodies.get(cid) if cid else None
+                        if cbd is None or not any((ct.callee.res or "").endswith("HpoGroup::contains") for cx in prog.family(cbd) for _, ct in cx.calls()):
+                            continue
+                        if any(fb.edge_dominates(e, bi) for e in positive_edges(fb, pvn, gbi)):
+                            any_guard = (gbi, gt, cbd)
+            if any_guard is not None:
+                gbi, gt, cbd = any_guard
+                ks = {k for k, _ in atom_kinds(pv_crisp.of_operand(fb, gt.args[0]))}
+                fam_ids = {x_.id for x_ in prog.family(sub)}
+                recv_at = set()
+                for cx in prog.family(cbd):
+                    for _, ct in cx.calls():
+                        if (ct.callee.res or "").endswith("HpoGroup::contains"):
+                            recv_at |= set(pv.of_operand(cx, ct.args[0]))
+                filtered = any(a[0] == "call" and a[1].endswith("::filter") and a[3] in fam_ids for a in recv_at)
+                if ks == {K} and filtered:
+                    ck.ob("KIND", "guard/sub_ontology/%s" % m, True, "%s is guarded by `any term of the %s record is contained in the modifier-filtered id set`" % (m, K), where=fb.where(gt.line))
+                else:
+                    ck.undecided("KIND", "guard/sub_ontology/%s" % m, "%s is guarded by an existence test (Iterator::any + HpoGroup::contains) whose operands are not classified (kinds %s, filtered set: %s)" % (m, sorted(ks), filtered), where=fb.where(gt.line))
+            elif not guards and helper_guard is not None:
                 ck.undecided("KIND", "guard/sub_ontology/%s" % m, "%s is guarded by the result of the private helper %s (which decides from the %s record's terms): the helper's test is not classified" % (m, (helper_guard.callee.res or "").rsplit("::", 1)[-1], K), where=fb.where(t.line))
             elif not guards and elsewhere_guard(prog, pv, pvn, sub, fb, t):
                 ck.undecided("KIND", "guard/sub_ontology/%s" % m, "%s: the emptiness test of an intersection sits in %s, not on the path to this call: whether it keeps modifier-only records out is not classified" % (m, elsewhere_guard(prog, pv, pvn, sub, fb, t)), where=fb.where(t.line))
@@ -289,6 +345,13 @@ def run(ck, prog, ctx):
         p_is_parent = any(a[0] == "call" and a[1].endswith("HpoTermInternal::parents") for a in pa) or "parents" in field_names(pa, "HpoTermInternal")
         c_is_id = "id" in field_names(ca, "HpoTermInternal") and not (any(a[0] == "call" and a[1].endswith("HpoTermInternal::parents") for a in ca))
         ok = p_is_parent and c_is_id
+        if not ok:
+            pa2, ca2 = pv_crisp.of_operand(fb, t.args[1]), pv_crisp.of_operand(fb, t.args[2])
+            p2 = any(a[0] == "call" and a[1].endswith("HpoTermInternal::parents") for a in pa2) or "parents" in field_names(pa2, "HpoTermInternal")
+            c2 = "id" in field_names(ca2, "HpoTermInternal") and not (any(a[0] == "call" and a[1].endswith("HpoTermInternal::parents") for a in ca2))
+            if p2 and c2:
+                ck.undecided("ROLE", "links/add_parent/%d/roles" % n, "the roles of the induced link are right on the direct flows (parent of the term, the term's id); flows through values written behind &mut references add further sources that are not classified", where=fb.where(t.line))
+                continue
         ck.ob("ROLE", "links/add_parent/%d/roles" % n, ok, "induced link is add_parent(%s, %s)" % ("a parent of the term" if p_is_parent else "NOT a parent", "the term's id" if c_is_id else "NOT the term's id"), where=fb.where(t.line))
         # guarded by ids.contains(parent)
         g = False
